@@ -6,6 +6,7 @@ import Driver.AtrestDrv
 import Driver.CodecDrv
 import Driver.InviteDrv
 import Driver.KnowDrv
+import Driver.CrashCoreDrv
 
 def main (args : List String) : IO UInt32 := do
   match args with
@@ -17,4 +18,5 @@ def main (args : List String) : IO UInt32 := do
   | ["codec"] => Driver.CodecDrv.main; return 0
   | ["invite"] => Driver.InviteDrv.main; return 0
   | ["know"] => Driver.KnowDrv.main; return 0
+  | ["crashcore"] => Driver.CrashCoreDrv.main; return 0
   | _ => IO.eprintln "usage: mdkdrv store < ops"; return 2
